@@ -174,6 +174,45 @@ def crash_points(seed, n, base):
         shutil.rmtree(incabs, ignore_errors=True)
 
 
+def write_faults(seed, n, base):
+    """make `archive` hit a write error (EFBIG: RLIMIT_FSIZE with SIGXFSZ ignored) at chosen distances from the end of the archive,
+    including inside the last buffer-full: a failed creation must leave the destination absent — never a truncated file"""
+    import resource
+    rng = random.Random(seed * 7919)
+    work = os.path.join(base, "efbig")
+    if os.path.exists(work): shutil.rmtree(work)
+    os.makedirs(os.path.join(work, "logs"))
+    V = []; dist = {}
+    specf = os.path.join(work, "spec.txt"); open(specf, "w").write(f"list t_one {hx('a')} 0\n")
+    env = env_for(work, specf)
+    cfgf = os.path.join(work, "nextest.toml"); open(cfgf, "w").write("[profile.default]\n")
+    common = ["--manifest-path", os.path.join(e2e.WS, "Cargo.toml"), "--config-file", cfgf, "--offline", "--zstd-level", "1"]
+    arch = os.path.join(work, "a.tar.zst")
+    rc, out, err = nx(["archive", "--archive-file", arch] + common, env)
+    if rc != 0: return [{"what": f"[efbig] reference archive failed: {err[-300:]}", "kind": "machinery", "payload": {}}], dist
+    S = os.path.getsize(arch)
+    ks = [1, 2, 5, 9, 12] + [rng.randrange(13, 8000) for _ in range(max(0, n - 5))]
+    for k in ks[:max(n, 3)]:
+        L = S - k
+        if os.path.exists(arch): os.remove(arch)
+        def pre():
+            signal.signal(signal.SIGXFSZ, signal.SIG_IGN)
+            resource.setrlimit(resource.RLIMIT_FSIZE, (L, L))
+        p = subprocess.run([e2e.NEXTEST, "nextest", "archive", "--archive-file", arch] + common, cwd=e2e.WS, env=env, stdout=subprocess.DEVNULL, stderr=subprocess.PIPE, preexec_fn=pre)
+        size = os.path.getsize(arch) if os.path.exists(arch) else None
+        if size is None: state = "absent"
+        else:
+            d = os.path.join(work, f"x{k}"); os.makedirs(d, exist_ok=True)
+            rc2, out2, err2 = nx(["list", "--archive-file", arch, "--extract-to", d, "--message-format", "json", "--config-file", cfgf], env)
+            state = "complete" if rc2 == 0 else "TRUNCATED"
+            shutil.rmtree(d, ignore_errors=True)
+        dist[f"e2e:efbig:{state}"] = dist.get(f"e2e:efbig:{state}", 0) + 1
+        if state == "TRUNCATED" or (state == "absent" and p.returncode == 0) or (state == "complete" and size is not None and size > L):
+            V.append({"what": f"[efbig] archive creation with writes failing {k} bytes before the end of a {S}-byte archive: exit {p.returncode}, destination is {state} ({size} bytes) — a failed creation must not leave a partial archive", "kind": "atomic",
+                      "payload": {"archive_size": S, "limit": L, "exit": p.returncode, "state": state, "size": size, "stderr": p.stderr.decode(errors="replace")[-300:]}})
+    return V, dist
+
+
 def check(seed, tier, n_quick=3, n_thorough=20, k_quick=4, k_thorough=30):
     ok, err = e2e.build_workspace()
     broken = []
@@ -200,9 +239,15 @@ def check(seed, tier, n_quick=3, n_thorough=20, k_quick=4, k_thorough=30):
         dist.update(d)
     except Exception as e:
         broken.append(f"crash points: {e!r}")
+    try:
+        v, d = write_faults(seed, 5 if tier == "quick" else 40, base)
+        violations += [x for x in v if x["kind"] != "machinery"]; broken += [x["what"] for x in v if x["kind"] == "machinery"]
+        dist.update(d)
+    except Exception as e:
+        broken.append(f"write faults: {e!r}")
     shutil.rmtree(base, ignore_errors=True)
     return {"e2e_runs": n, "e2e_tests": 0, "e2e_processes": 0, "dist": dist, "violations": violations, "broken": broken, "samples": samples,
-            "rule": "end-to-end family `arc`: the real CLI archives the scripted workspace (3 test binaries + 1 non-test binary) with a generated include tree (depth 0/1/2/infinite/default, optionally an overlapping deeper include listed before or after), lists and runs from the archive, and every extracted file is compared byte for byte (SHA-256) with its source, the include members with what the depths demand, the listing with the direct listing, binary paths with the extraction directory; `archive` is killed with SIGKILL at random moments (with and without a pre-existing destination) and the destination must be absent/unchanged or a complete, extractable archive"}
+            "rule": "end-to-end family `arc`: the real CLI archives the scripted workspace (3 test binaries + 1 non-test binary) with a generated include tree (depth 0/1/2/infinite/default, optionally an overlapping deeper include listed before or after), lists and runs from the archive, and every extracted file is compared byte for byte (SHA-256) with its source, the include members with what the depths demand, the listing with the direct listing, binary paths with the extraction directory; `archive` is killed with SIGKILL at random moments (with and without a pre-existing destination) and the destination must be absent/unchanged or a complete, extractable archive; `archive` is made to hit a write error (EFBIG) 1-12 and more bytes before the end of the archive and must then leave no destination file"}
 
 
 if __name__ == "__main__":
